@@ -109,11 +109,14 @@ func c14Gen(r *rand.Rand) *c14Case {
 			return c14Line{kind, core.Pick(r, "# Copyright (c) 2021-%Y Core Rule Set project. All rights reserved.", "# Copyright (c) 2021-%Y CRS project. All rights reserved.")}
 		case "ver":
 			return c14Line{kind, core.Pick(r, "    ver:'OWASP_CRS/%V',\\", "    ver:'OWASP_CRS/%V'\"", "#    ver:'OWASP_CRS/%V',\\", "    t:none,ver:'OWASP_CRS/%V',severity:'CRITICAL',\\")}
+		case "two":
+			// two marker kinds on one physical line
+			return c14Line{kind, core.Pick(r, "SecAction \"id:900990,phase:1,pass,nolog,ver:'OWASP_CRS/%V',setvar:tx.crs_setup_version=%D\"", "    ver:'OWASP_CRS/%V',setvar:tx.crs_setup_version=%D,\\")}
 		default:
 			return c14Line{"sig", "SecComponentSignature \"OWASP_CRS/%V\""}
 		}
 	}
-	kinds := []string{"header", "short", "year", "ver", "sig"}
+	kinds := []string{"header", "short", "year", "ver", "sig", "two"}
 	nf := 1 + r.Intn(4)
 	names := []string{"rules/REQUEST-901-INITIALIZATION.conf", "rules/REQUEST-932-APPLICATION-ATTACK-RCE.conf", "crs-setup.conf.example",
 		"rules/RESPONSE-999-EXCLUSION-RULES-AFTER-CRS.conf.example", "util/docker/extra.conf", "plugins/deep/er/plugin-config.conf", "regex-assembly/odd.conf", "tests/sample.example", ".ci/modsecurity/crs-setup.conf", ".github/templates/rule.example", "rules/.hidden.conf"}
